@@ -1400,3 +1400,40 @@ emit(sprint("ctrlflow ", @Q@N1(argInt(args, 0, 9)+7), " ", t.@M1(3), " ", t.@M1(
 `,
 	})
 }
+
+func init() {
+	// Identifiers that start with non-ASCII letters: exportedness is a Unicode
+	// property, not an ASCII one.
+	register("unicode", featDef{
+		provNotMain: true,
+		tags:        []string{"unicode-identifiers"},
+		prov: `
+type Ühr@MKw struct {
+	Δt@MKw   int
+	ärmel@MKw string
+}
+
+func Ölstand@MKw(n int) *Ühr@MKw { return &Ühr@MKw{Δt@MKw: n * (@P0 + 1), ärmel@MKw: "ä"} }
+
+func (u *Ühr@MKw) Ändern@MKw(d int) int { u.Δt@MKw += d; return u.Δt@MKw + len(u.ärmel@MKw) }
+
+var Änderung@MKw = 7
+
+const Éinheit@MKw = "é"
+
+type Жук@MKw interface{ Ändern@MKw(int) int }
+
+func öffnen@MKw(j Жук@MKw) int { return j.Ändern@MKw(1) }
+
+func Öffnen@MKw(j Жук@MKw) int { return öffnen@MKw(j) * 2 }
+`,
+		sinks: `Ühr@MKw{}`,
+		use: `
+u := @QÖlstand@MKw(argInt(args, 0, 2))
+u.Δt@MKw += @QÄnderung@MKw
+emit(sprint("unicode ", u.Ändern@MKw(3), " ", @QÖffnen@MKw(u), " ", @QÉinheit@MKw, " ", u.Δt@MKw))
+w := @QÜhr@MKw{Δt@MKw: 1}
+emit(sprint("unicode2 ", w.Δt@MKw))
+`,
+	})
+}
